@@ -186,7 +186,7 @@ func checkC17(c *Ctx, r *Report) {
 
 // C18 — audio configuration codecs are exact over their domain (structural part).
 func checkC18(c *Ctx, r *Report) {
-	r.Explanation = "T-SPEC: aac.FrequencyTable equals the sampling-frequency-index table of ISO/IEC 14496-3; T-INV: aac.FrequencyTable and aac.ReverseFrequencies are mutual inverses (decided completely from the two literals); " +
+	r.Explanation = "L-TRUNCCOPY: no slice that comes from a parameter (a decoder configuration) is copied into a fixed-size array without a test of its length; T-SPEC: aac.FrequencyTable equals the sampling-frequency-index table of ISO/IEC 14496-3; T-INV: aac.FrequencyTable and aac.ReverseFrequencies are mutual inverses (decided completely from the two literals); " +
 		"W-BITS: DecodeAudioSpecificConfig is executed on a symbolic bit stream under every configuration (object types, all 16 frequency indices incl. the 24-bit escape, SBR extension), " +
 		"AudioSpecificConfig.Encode is executed on the decoded value and compared bit by bit with what was read; " +
 		"(W-TRUNC) in mp4 and aac no value narrowed to 8/16 bits for one destination is widened again and used in place of the original (sampling frequencies above 65535); (DEP) SetAACDescriptor builds the esds DecSpecificInfo from the encoded configuration and the sample entry from the same configuration. " +
@@ -201,6 +201,11 @@ func checkC18(c *Ctx, r *Report) {
 	ruleADTSSequence(c, r)
 	ruleEscapeSites(c, r)
 	ruleASCRejections(c, r)
+	ruleTruncatingCopy(c, r, func(f *ssa.Function) bool {
+		return strings.HasPrefix(SSAFuncName(f), "mp4.") || strings.HasPrefix(SSAFuncName(f), "aac.")
+	})
+	r.OK("L-TRUNCCOPY", "scope", "", "no slice that comes from a parameter is copied into a fixed-size array without a length test in packages mp4 and aac (expected count zero; fixture-backed)")
+	requireFixture(r, "L-TRUNCCOPY", "squeezeWrong", func(fc *Ctx, s *Report) { ruleTruncatingCopy(fc, s, nil) })
 	ruleTruncReuse(c, r, "W-TRUNC", func(f *ssa.Function) bool {
 		n := SSAFuncName(f)
 		return strings.HasPrefix(n, "mp4.") || strings.HasPrefix(n, "aac.")
